@@ -299,7 +299,11 @@ def rule_provenance(ctx: Ctx, typed: Typed):
                         if qual.endswith(".is_parallel_citation") or qual.endswith(".guess_court"):
                             continue  # R-C17-3 / non-textual
                         pv = pv or Prov(ctx, typed, mod, fn, summaries)
-                        k = pv.kind(n.value)
+                        val = n.value
+                        # `new or <the field's own previous value>`: the previous value was stored under this same rule
+                        if isinstance(val, ast.BoolOp) and isinstance(val.op, ast.Or) and norm(val.values[-1]) == norm(t) and len(val.values) >= 2:
+                            val = val.values[0] if len(val.values) == 2 else ast.BoolOp(op=ast.Or(), values=val.values[:-1])
+                        k = pv.kind(val)
                         n_stores += 1
                         ctx.ob("R-C17-1", f"{qual}/metadata.{f}", not k.startswith("OTHER") and f in TEXTUAL,
                                f"stored value `{norm(n.value)[:60]}` must be text of the match next to the citation (or None): {k}", node=n, mod=mod)
